@@ -1,6 +1,7 @@
 import Resolvo.Drv.Parse
 import Resolvo.Oracles
 import Resolvo.Drv.Trace
+import Resolvo.Graph
 /-! Driver for the solver families: evaluates the oracles on the implementation's outputs. -/
 namespace Resolvo.Drv
 open Resolvo
@@ -33,7 +34,55 @@ def traceOracle (U : Universe) (P : Problem) (r : ImplSolve) : List String :=
   | some st =>
     if r.result == "unsat" && st.failed.isNone then
       ["oracle-fail C01,C02,C03,C05 trace: Unsolvable reported without a root-level falsified clause in the history"]
-    else [s!"info trace-accepted events {events.length} clauses {st.db.length}"]
+    else
+      -- C03: the clauses the Conflict blames must, on their own, refute the root
+      let blamed := r.conflictClauses.map (fun c => (st.db.getD c default).lits)
+      let o := if r.result == "unsat" && Resolvo.Sat.decideSat' ([(0, true)] :: blamed) then
+          ["oracle-fail C03 blamed-clauses: the clauses recorded in the Conflict do not refute the root (an antecedent is missing)"]
+        else if r.result == "unsat" && r.conflictClauses.any (fun c => match (st.db.getD c default).kind with | .learnt _ => true | _ => false) then
+          ["oracle-fail C03 blamed-clauses: a learnt clause is reported instead of its antecedents"]
+        else []
+      o ++ [s!"info trace-accepted events {events.length} clauses {st.db.length}"]
+
+open Resolvo.Graph in
+def parseNode (s : String) : Node :=
+  if s == "root" then .root
+  else if s == "unresolved" then .unresolved
+  else if s.startsWith "excl" then .excl (nat! (s.drop 4).toString)
+  else .solv (nat! (s.drop 1).toString)
+
+open Resolvo.Graph in
+/-- `s15>s10:req:v10` -/
+def parseEdge (s : String) : Option Edge :=
+  match s.splitOn ">" with
+  | [a, rest] =>
+    (match rest.splitOn ":" with
+     | [b, "req", r] => some ⟨parseNode a, parseNode b, .req (parseReq r)⟩
+     | [b, "constrains", v] => some ⟨parseNode a, parseNode b, .constrains (nat! v)⟩
+     | [b, "locked", l] => some ⟨parseNode a, parseNode b, .locked (nat! l)⟩
+     | [b, "forbid"] => some ⟨parseNode a, parseNode b, .forbid⟩
+     | [b, "excluded"] => some ⟨parseNode a, parseNode b, .excluded⟩
+     | _ => none)
+  | _ => none
+
+open Resolvo.Graph in
+/-- C03 oracles on the implementation's conflict graph. -/
+def graphOracle (U : Universe) (P : Problem) (r : ImplSolve) : List String :=
+  if r.graphNodes.isEmpty && r.graphEdges.isEmpty then
+    (match r.other.find? (fun l => l.startsWith "graph panic") with
+     | some l => [s!"oracle-fail C03,C04 graph-panic: {l}"]
+     | none => ["oracle-fail C03 graph-missing: Unsolvable without a conflict graph"])
+  else
+    let edges := r.graphEdges.filterMap parseEdge
+    let nodes := r.graphNodes.map parseNode
+    let bad := edges.filter (fun e => !edgeTrueB U P edges e)
+    let o1 := if edges.length != r.graphEdges.length then ["oracle-fail C03 graph-parse: unparsable edge"] else []
+    let o2 := match bad with
+      | e :: _ => [s!"oracle-fail C03 edge-untrue: edge {repr e} does not state a true fact of the provider's data".replace "\n" " "]
+      | [] => []
+    let o3 := if reachableB edges nodes then [] else ["oracle-fail C03 unreachable: a node of the conflict graph is not reachable from the root"]
+    let o4 := if graphRefutes edges then [] else ["oracle-fail C03 not-a-refutation: the facts shown in the conflict graph (with one-solvable-per-package for forbid-joined nodes) allow a selection that installs the root"]
+    o1 ++ o2 ++ o3 ++ o4 ++ [s!"info graph edges {edges.length} nodes {nodes.length}"]
 
 def oracleSolve (U : Universe) (P : Problem) (cfg : String) (r : ImplSolve) : List String :=
   let solvable := decideSolvable U P
@@ -64,7 +113,7 @@ def oracleSolve (U : Universe) (P : Problem) (cfg : String) (r : ImplSolve) : Li
     info ++ o1 ++ o2 ++ o5 ++ o7 ++ o8
   | "unsat" =>
     let o2 := if solvable then [s!"oracle-fail C02,C10,C13,C14,C15 verdict: implementation says Unsolvable but a solution exists (decideSolvable=true)"] else []
-    info ++ o2
+    info ++ o2 ++ graphOracle U P r
   | "cancelled" =>
     if cancelled then info else info ++ [s!"oracle-fail C12 spurious-cancel: Cancelled returned although should_cancel_with_value never fired"]
   | "panic" =>
